@@ -37,6 +37,8 @@ def step_state(state, op):
 
 def apply_op(m, trace, op, unique=False):
     """-> result of the public call (or the exception it raised)"""
+    if len(op) > 2 and op[2] == "u":
+        unique = True          # an operation may ask for the collapsed state list on its own: ["W", 2, "u"]
     try:
         if op[0] == "M":
             return m.match(list(trace[:op[1]]), unique=unique)
